@@ -247,6 +247,25 @@ func checkC12(c *Ctx) {
 	}
 	builtinRules(c, ref.C12, &ref, "C12")
 	r.Floor("EFFECT-SIG", 6)
+	// the engines are used through objects created per call (or immutable ones): no state of an earlier point
+	{
+		run, _ := registryMaps(t)
+		var roots []*ssa.Function
+		for _, name := range ref.C12 {
+			if f := run[name]; f != nil {
+				roots = append(roots, f)
+			}
+		}
+		sc, _ := reach(t, roots, nil)
+		var fns []*ssa.Function
+		for f := range sc {
+			fns = append(fns, f)
+		}
+		sortFuncs(fns)
+		n, bad := sharedObjects(t, fns)
+		r.Ob("ENGINE-STATE", "extraction builtins share no engine object between points", "", len(bad) == 0,
+			fmt.Sprintf("%d functions reachable from the C12 builtins, %d package-level foreign pointers inspected; %s — an engine object kept in a package variable can carry mode or cache state from one subject to the next (what is stored would then depend on history)", len(fns), n, strings.Join(bad, "; ")))
+	}
 	// pattern scope
 	setP := t.Method(pRT, "Task", "SetPattern")
 	getP := t.Method(pRT, "Task", "GetPattern")
